@@ -19,7 +19,9 @@ SPEC = {
             "now, re-fired), the same label set twice in a batch, empty-valued labels, invalid label/annotation names, empty label "
             "sets, end before start; interleaved with GETs and with waits across the provider's GC ticks (3/10/30 min); "
             "resolve_timeout 1/2/5 min; a case is non-trivial when it hits a tagged branch (post:overlap, post:timeout-resend, "
-            "post:explicit-past-end, post:400, gc:collected, get:end-equals-now, get:suppressed, …)",
+            "post:explicit-past-end, post:400, gc:collected, get:end-equals-now, get:suppressed, …); engine reload (the real application): an alert that is "
+            "silenced AND inhibited plus its active source, GET /api/v2/alerts with inhibited=false / silenced=false / active=false: who is listed "
+            "(AM.Ingest.passesFlags on the statuses the API itself reports)",
     "assumptions": [
         "fingerprints are injective (the model keys alerts by their label list)",
         "label values are valid UTF-8 (the JSON decoder guarantees it); compat.IsValidLabelName is in its default classic mode",
